@@ -24,11 +24,17 @@ PROP = "C14"
 MODEL_TARGETS = ["Model/Curves.vo", "Model/CurvesSpec.vo", "Model/CurvesObs.vo", "Model/ItemsObs.vo"]
 THEOREMS = ["C14_refine", "C14_refine_append_curve", "C14_refine_insert_curve", "C14_refine_append_curve_item",
             "C14_refine_insert_curve_item", "C14_refine_delete_curve", "C14_refine_update_curve",
-            "C14_refine_replace_curve_item", "C14_refine_setitem", "C14_refine_set_data", "C14_refinement",
-            "C14_outcomes", "C14_obs_keys", "C14_obs_keys_exact", "C14_obs_missing_key", "C14_obs_int_index",
-            "C14_obs_values", "C14_obs_items", "C14_obs_index", "C14_obs_data_defined", "C14_obs_data_columns",
-            "C14_obs_get_curve", "C14_inv_step_partial", "C14_inv_reachable_partial", "C14_independent",
-            "C14_independent_history", "C14_truncate_refuted_prefix", "C14_replace_negative_refuted_prefix"]
+            "C14_refine_replace_curve_item", "C14_refine_setitem", "C14_refine_setitem_array_present",
+            "C14_refine_setitem_array_missing", "C14_refine_setitem_item_mismatch",
+            "C14_refine_setitem_item_present", "C14_refine_setitem_item_missing", "C14_refine_set_data",
+            "C14_set_data_lengths", "C14_refinement", "C14_outcomes", "C14_obs_keys", "C14_obs_keys_exact",
+            "C14_obs_keys_sound", "C14_obs_missing_key", "C14_obs_missing_index", "C14_obs_int_index",
+            "C14_obs_values", "C14_obs_items", "C14_obs_index", "C14_obs_get_curve", "C14_obs_data_defined",
+            "C14_obs_data_empty", "C14_obs_data_ragged", "C14_obs_data_columns", "C14_inv_fresh",
+            "C14_inv_read_partial", "C14_inv_step_partial", "C14_inv_reachable_partial",
+            "C14_inv_reachable_names_partial", "C14_reachable_lookup_partial", "C14_independent",
+            "C14_independent_history", "C14_truncate_refuted_prefix", "C14_replace_negative_refuted_prefix",
+            "C14_keys_refuted"]
 ASSUMPTIONS = [
     "hand model of the curve methods of las.py (Model/Curves.v, on top of Model/Items.v) tied by correspondence: every "
     "generated history is run on real LASFile objects and on the model inside Coq; compared after EVERY step: the "
@@ -428,8 +434,18 @@ class Sim:
         self.oracle = oracle
         self.violations = []
         self.done = []
+        self.shared = False
         if oracle:
             for t, las in enumerate(self.files):
+                if inits[t] == "F" and len(las.curves):
+                    self.shared = True
+                    # state shared between LASFile objects: reproducible as a two-file history
+                    self.violations.append({
+                        "payload": {"inits": ["F", "F"], "ops": [["0", "a", "A", "u", "v", "d", "1,2,"]]},
+                        "what": "a fresh LASFile() already has the curves %r: LASFile objects share state"
+                                % (las.keys(),)})
+                    self.oracle = False
+                    return
                 for b in check_views(las, self.lists[t]):
                     self.flag("initial state of file %d: %s" % (t, b))
 
@@ -437,26 +453,31 @@ class Sim:
         if len(self.violations) < 3:
             self.violations.append({"payload": {"inits": self.inits, "ops": [list(o) for o in self.done]},
                                     "what": "after %s on %s: %s" % (self.done, self.inits, what)})
+        # the list model and the LASFile have parted: later steps are still run (for the
+        # observation) but no longer judged
+        self.oracle = False
 
     def step(self, op):
         t, f = int(op[0]), op[1:]
         las = self.files[t]
-        if self.oracle:
+        judged = self.oracle
+        if judged:
             keys = las.keys()
             before = snapshot(las)
             others = [snapshot(x) if j != t else None for j, x in enumerate(self.files)]
         r = apply_op(las, f)
         self.done.append(op)
-        if not self.oracle:
+        if not judged:
             return r
         exp = list_step(self.lists[t], keys, f)
+        plain = lambda snap: [x[1:] for x in snap]      # noqa: E731  (without the object ids)
         if exp == FAIL:
             if r == "ok":
                 self.flag("the call succeeded although the list model rejects it")
             elif r not in [e.__name__ for e in ERRS]:
                 self.flag("the call raised %s" % r)
             if snapshot(las) != before:
-                self.flag("the call raised %s but changed the curves: %r -> %r" % (r, before, snapshot(las)))
+                self.flag("the call raised %s but changed the curves: %r -> %r" % (r, plain(before), plain(snapshot(las))))
         elif exp == "unchanged":
             after = [s[1:2] + s[3:] for s in snapshot(las)]
             if after != [s[1:2] + s[3:] for s in before]:
@@ -468,11 +489,12 @@ class Sim:
                     self.flag("... and the failed call changed the curves")
             else:
                 self.lists[t] = exp
-        for b in check_views(las, self.lists[t]):
-            self.flag(b)
         for j, x in enumerate(self.files):
             if j != t and snapshot(x) != others[j]:
                 self.flag("an operation on file %d changed file %d" % (t, j))
+        if self.oracle:
+            for b in check_views(las, self.lists[t]):
+                self.flag(b)
         return r
 
     def observe(self):
@@ -551,13 +573,18 @@ def mid_alphabet():
 
 
 def small_alphabet():
-    return [("a", "A", 2), ("a", "", 2), ("i", 0, "a", 2), ("d", None, 0), ("d", "A:1", None), ("r", -1, "A"),
-            ("s", "A", 2), ("t", "A", "A"), ("D", "len+1", "dup", False, 2), ("D", "len", None, True, 2)]
+    return [("a", "A", 2), ("a", "", 2), ("i", 0, "a", 2), ("i", -1, "A", 3), ("d", None, 0), ("d", "A:1", None),
+            ("u", "A:2", None, "du"), ("r", -1, "A"), ("s", "A", 2), ("s", "A:1", 2), ("t", "A", "A"),
+            ("t", "UNKNOWN", ""), ("D", "len+1", "dup", False, 2), ("D", "len", None, True, 2)]
 
 
 def micro_alphabet():
-    return [("a", "A", 2), ("i", 0, "A", 2), ("d", None, -1), ("r", -1, "A"), ("s", "A:1", 2),
-            ("D", "len+1", "shorter", False, 2)]
+    return [("a", "A", 2), ("i", 0, "a", 2), ("d", None, -1), ("d", "A:1", None), ("r", -1, "A"),
+            ("s", "A:1", 2), ("t", "A", "A"), ("D", "len+1", "shorter", False, 2)]
+
+
+def tiny_alphabet():
+    return [("a", "A", 2), ("i", 0, "A", 2), ("d", None, -1), ("r", -1, "A"), ("D", "len+1", "dup", True, 2)]
 
 
 class Gen:
@@ -721,23 +748,30 @@ def random_history(rng, max_len, pair, oracle=False, sigs=None):
 
 
 # ---- the run --------------------------------------------------------------------------------------------------
-ALPHABETS = {"full": full_alphabet, "mid": mid_alphabet, "small": small_alphabet, "micro": micro_alphabet}
-SAMPLE_EVERY = 53
+ALPHABETS = {"full": full_alphabet, "mid": mid_alphabet, "small": small_alphabet, "micro": micro_alphabet,
+             "tiny": tiny_alphabet}
+SAMPLE_EVERY = 211
 
 
 def families(ctx):
-    """(label, alphabet, length, init names, pair): ALL histories of exactly that length over the alphabet"""
-    fams = [("full=1", "full", 1, ["fresh"], False), ("full=1", "full", 1, ["read"], False),
-            ("full=2", "full", 2, ["read"], False),
-            ("mid=2", "mid", 2, ["fresh"], False), ("mid=3", "mid", 3, ["fresh"], False),
-            ("small=4", "small", 4, ["fresh"], False),
-            ("micro=5", "micro", 5, ["fresh"], False),
-            ("pair small=3", "small", 3, ["read", "fresh"], True)]
+    """(label, [alphabet per position], init names, pair): ALL histories whose i-th operation is drawn from the
+    i-th alphabet"""
+    F, M, S, U, T = "full", "mid", "small", "micro", "tiny"
+    fams = [("full^1", [F], ["fresh"], False), ("full^1", [F], ["read"], False), ("full^1", [F], ["read2"], False),
+            ("full*mid", [F, M], ["read"], False), ("mid*full", [M, F], ["read"], False),
+            ("mid^2", [M, M], ["fresh"], False),
+            ("small^3", [S] * 3, ["fresh"], False),
+            ("micro^4", [U] * 4, ["fresh"], False),
+            ("tiny^5", [T] * 5, ["fresh"], False),
+            ("pair micro^3", [U] * 3, ["read", "fresh"], True)]
     if ctx.thorough:
-        fams += [("full=2", "full", 2, ["fresh"], False), ("mid=3", "mid", 3, ["read"], False),
-                 ("small=4", "small", 4, ["read"], False), ("small=5", "small", 5, ["fresh"], False),
-                 ("micro=6", "micro", 6, ["fresh"], False), ("micro=7", "micro", 7, ["fresh"], False),
-                 ("pair small=4", "small", 4, ["fresh", "fresh"], True), ("pair mid=3", "mid", 3, ["read", "read2"], True)]
+        fams += [("full^2", [F, F], ["read"], False), ("full^2", [F, F], ["fresh"], False),
+                 ("mid^3", [M] * 3, ["fresh"], False), ("mid^3", [M] * 3, ["read"], False),
+                 ("small^4", [S] * 4, ["fresh"], False), ("small^4", [S] * 4, ["read"], False),
+                 ("micro^5", [U] * 5, ["fresh"], False), ("tiny^6", [T] * 6, ["fresh"], False),
+                 ("tiny^7", [T] * 7, ["fresh"], False),
+                 ("pair small^3", [S] * 3, ["read", "fresh"], True), ("pair micro^5", [U] * 5, ["fresh", "fresh"], True),
+                 ("pair mid^2", [M] * 2, ["read", "read2"], True)]
     return fams
 
 
@@ -747,15 +781,19 @@ def state_sig(sim):
 
 
 def work_chunk(job):
-    label, alpha_name, length, init_names, pair, first = job
-    alpha = ALPHABETS[alpha_name]()
+    label, alpha_names, init_names, pair, first = job
+    alphas = [ALPHABETS[a]() for a in alpha_names]
     inits = [INITS[i] for i in init_names]
     out = {"label": label, "cases": [], "texts": [], "viol": [], "sigs": set()}
-    for rest in itertools.product(alpha, repeat=length - 1):
-        tm = [alpha[first]] + list(rest)
-        targets = [j % 2 for j in range(length)] if pair else None
+    for rest in itertools.product(*alphas[1:]):
+        tm = [alphas[0][first]] + list(rest)
+        targets = [j % 2 for j in range(len(tm))] if pair else None
         ops, text, sim = play(inits, tm, targets, sigs=out["sigs"])
-        if len(out["cases"]) % SAMPLE_EVERY == 0:
+        if sim.shared:              # every later LASFile is polluted: stop
+            out["viol"] += sim.violations[:1]
+            out["abort"] = True
+            return out
+        if (len(out["cases"]) + first) % SAMPLE_EVERY == 0:
             out["texts"].append((len(out["cases"]), text))
         out["cases"].append((case_input(inits, ops), digest(text)))
         out["viol"] += sim.violations[:2]
@@ -792,11 +830,17 @@ def run(ctx):
     cases, texts, hist = [], {}, {}
     sigs = set()
     jobs = []
-    for (label, alpha_name, length, init_names, pair) in families(ctx):
-        for first in range(len(ALPHABETS[alpha_name]())):
-            jobs.append((label, alpha_name, length, init_names, pair, first))
+    for (label, alpha_names, init_names, pair) in families(ctx):
+        for first in range(len(ALPHABETS[alpha_names[0]]())):
+            jobs.append((label, alpha_names, init_names, pair, first))
+    aborted = False
     with multiprocessing.get_context("fork").Pool(12) as pool:
         for out in pool.imap(work_chunk, jobs, chunksize=1):
+            if out.get("abort"):
+                res.oracle_violations += out["viol"]
+                aborted = True
+                pool.terminate()
+                break
             base = len(cases)
             cases += out["cases"]
             for (j, t) in out["texts"]:
@@ -804,12 +848,16 @@ def run(ctx):
             hist[out["label"]] = hist.get(out["label"], 0) + len(out["cases"])
             sigs |= out["sigs"]
             res.oracle_violations += out["viol"]
+    if aborted:
+        res.cases = len(cases)
+        res.corr_error = "aborted: a fresh LASFile() is not empty (LASFile objects share state)"
+        return res
     n_exh = len(cases)
-    n_rand = 8000 if ctx.thorough else 700
+    n_rand = 8000 if ctx.thorough else 600
     for j in range(n_rand):
         pair = j % 3 == 0
         inits, ops, text, sim = random_history(ctx.rng, 30, pair, oracle=True, sigs=sigs)
-        if j % 10 == 0:
+        if j % 40 == 0:
             texts[len(cases)] = text
         cases.append((case_input(inits, ops), digest(text)))
         label = "random<=30 pair" if pair else "random<=30"
@@ -820,8 +868,13 @@ def run(ctx):
     t_start = time.time()
     res.oracle_violations.sort(key=lambda v: len(v["payload"]["ops"]))      # shortest history first
     if ctx.build.model_ok:
-        mism, err = lib.run_coq_cases("c14", [], RUN_DIGEST, cases, shard=500)
+        # the long random histories are spread evenly over the shards
+        order = sorted(range(len(cases)),
+                       key=lambda i: (i / max(n_exh, 1)) if i < n_exh else ((i - n_exh + 0.5) / max(n_rand, 1)))
+        mism, err = lib.run_coq_cases("c14", [], RUN_DIGEST, [cases[i] for i in order], shard=400)
+        mism = sorted(order[m] for m in mism)
         res.corr_error = err
+        res.extra["coq_digest_s"] = round(time.time() - t_start, 1)
         sample = sorted(texts)
         full = [(cases[i][0], texts[i]) for i in sample]
         for i in mism[:100]:
@@ -829,7 +882,7 @@ def run(ctx):
                 inits, ops = decode_case(cases[i][0])
                 full.append((cases[i][0], run_history(inits, ops, oracle=False)[1]))
                 sample.append(i)
-        m2, err2 = lib.run_coq_cases("c14f", [], RUN_CASE, full, shard=60)
+        m2, err2 = lib.run_coq_cases("c14f", [], RUN_CASE, full, shard=8)
         res.corr_error = res.corr_error or err2
         for i in sorted(set(mism) | {sample[i] for i in m2}):
             inits, ops = decode_case(cases[i][0])
@@ -846,15 +899,14 @@ def run(ctx):
                 "las[k]=CurveItem, set_data] over names {A,B,'',a} (duplicates by repetition), positions "
                 "{0,1,-1,len,len+2,-len-1}, keys {A,A:1,A:2,B,UNKNOWN,a,Z,''}, arrays of length 2 (one of 3), 2-D arrays "
                 "of width len/len+1/len+2/len-1/0 and with 0 rows, 1-D arrays, names None/[]/shorter/equal/longer/with "
-                "duplicates, truncate on/off.  EXHAUSTIVE: every history of length 1 and 2 over the full alphabet (%d "
-                "templates; length 2 on the read LASFile [A,B,A]%s), length <=3 over the mid alphabet (%d), length 4 over "
-                "the small alphabet (%d), length 5 over the micro alphabet (%d)%s, every alternating pair history of "
-                "length 3 over the small alphabet; SAMPLED: random histories up to length 30 on one LASFile and on pairs "
-                "(fresh and read).  The observation is compared after every step.  distinct_nontrivial = distinct world "
-                "states (original/session names, array lengths, flag of every LASFile) reached after some step"
-                % (len(full_alphabet()), " and on a fresh one" if ctx.thorough else "", len(mid_alphabet()),
-                   len(small_alphabet()), len(micro_alphabet()),
-                   "; thorough: small=5, micro=6 and 7, mid=3 on the read file" if ctx.thorough else ""))
+                "duplicates, truncate on/off.  Alphabets: full %d templates, mid %d, small %d, micro %d, tiny %d.  "
+                "EXHAUSTIVE (every history whose i-th operation is drawn from the i-th alphabet): %s.  SAMPLED: %d random "
+                "histories up to length 30 on one LASFile and on pairs (fresh and read).  The observation of every LASFile "
+                "is compared after every step.  distinct_nontrivial = distinct world states (original/session names, "
+                "array lengths, flag of every LASFile) reached after some step"
+                % (len(full_alphabet()), len(mid_alphabet()), len(small_alphabet()), len(micro_alphabet()),
+                   len(tiny_alphabet()),
+                   "; ".join("%s on %s" % (f[0], "+".join(f[2])) for f in families(ctx)), n_rand))
     pick = [0, len(cases) // 3, n_exh - 1, len(cases) - 1]
     res.samples = [repr(decode_case(cases[i][0])) [:600] for i in pick]
     res.histogram = hist
